@@ -120,6 +120,8 @@ pub enum Event {
 pub struct MemLoader<'a> {
     pub sources: &'a Sources,
     pub log: Vec<Event>,
+    /// Carry on with the tree of a module that has lexical errors only, as the language server does.
+    pub lenient: bool,
 }
 
 impl<'a> MemLoader<'a> {
@@ -127,6 +129,7 @@ impl<'a> MemLoader<'a> {
         MemLoader {
             sources,
             log: Vec::new(),
+            lenient: false,
         }
     }
 }
@@ -150,7 +153,7 @@ impl Loader<LoadError> for MemLoader<'_> {
     fn parse(&mut self, loc: Locator, input: String) -> Result<Tree, LoadError> {
         self.log.push(Event::Parse(name_of(&loc)));
         let (tree, errs) = oal_syntax::parse(loc.clone(), input);
-        if !errs.is_empty() {
+        if !errs.is_empty() && !(self.lenient && tree.is_some()) {
             return Err(LoadError::Syntax(loc, errs));
         }
         tree.ok_or_else(|| LoadError::Syntax(loc, Vec::new()))
@@ -166,6 +169,14 @@ impl Loader<LoadError> for MemLoader<'_> {
 /// Loads and compiles the sources (front end).
 pub fn load(sources: &Sources) -> Result<ModuleSet, LoadError> {
     let mut loader = MemLoader::new(sources);
+    oal_compiler::module::load(&mut loader, &locator(&sources.main))
+}
+
+/// Loads and compiles the sources the way the language server does: a module whose only errors
+/// are lexical is used without the skipped characters.
+pub fn load_lenient(sources: &Sources) -> Result<ModuleSet, LoadError> {
+    let mut loader = MemLoader::new(sources);
+    loader.lenient = true;
     oal_compiler::module::load(&mut loader, &locator(&sources.main))
 }
 
